@@ -25,7 +25,7 @@ SPEC = {
              "or the program contains both a store and a load of the variable inside different control constructs."),
     "assumptions": ["vlib/defassign.py definite-assignment analysis (source-level control-flow paths)", "vlib/refeval.py for the run-time echo"],
     "min_evaluations": {"quick": 8000, "thorough": 80000},
-    "must_reach": ["must_reject_rejected", "clean_accepted", "in_sub", "in_main", "runtime_echo_runs", "mutated_random", "diamonds", "nested_loops", "shared_subroutine_rejected", "shared_subroutine_accepted"],
+    "must_reach": ["must_reject_rejected", "clean_accepted", "in_sub", "in_main", "runtime_echo_runs", "mutated_random", "diamonds", "nested_loops", "shared_subroutine_rejected", "shared_subroutine_accepted", "many_paths_rejected", "after_router_sequences"],
     "shard_timeout": {"quick": 2400, "thorough": 14400},
 }
 
@@ -207,6 +207,36 @@ def judge(acc, recipe, version, mode, ss, origin, run_echo=True):
                 return
 
 
+def many_paths_probe(pt, acc, rng):
+    """A variable stored on one arm only, followed by many further independent conditional stores (2^n combinations of stored
+    variables reach the read), then the read: however large the path space, the load is rejected."""
+    from ..common import PT_ERRORS, reset_globals
+    reset_globals()
+    I = pt.Int
+    n = rng.choice([13, 14, 15, 16])
+    pos = rng.choice([0, 0, n // 2])
+    vs = [pt.ScratchVar(pt.TealType.uint64) for _ in range(n + 1)]
+    c = lambda i: pt.Btoi(pt.Txn.application_args[0]) & I(1 << (i % 60))  # noqa: E731
+    body = [pt.If(c(i)).Then(vs[i].store(I(i + 1))) for i in range(1, n + 1)]
+    body.insert(pos, pt.If(c(0)).Then(vs[0].store(I(1))))
+    body.append(pt.Pop(vs[0].load()))
+    acc.evaluations += 1
+    case = {"probe": "many_paths", "n": n, "pos": pos}
+    try:
+        pt.compileTeal(pt.Seq(*body, I(1)), pt.Mode.Application, version=rng.choice([6, 8]), optimize=pt.OptimizeOptions(scratch_slots=False))
+    except PT_ERRORS as e:
+        cause = e.__cause__
+        if isinstance(cause, pt.TealCompileError) and "load occurs before store" in str(cause):
+            acc.counters["many_paths_rejected"] += 1
+        else:
+            acc.violation("error_without_offending_load", case, "rejected with %r, cause %r" % (str(e)[:120], cause))
+        return
+    except RecursionError:
+        acc.counters["dropped_recursion"] += 1
+        return
+    acc.violation("unassigned_load_accepted", case, "a variable stored on one arm only is read after %d further independent conditional stores, and the program compiled" % n)
+
+
 def shared_subroutine_probe(pt, acc, rng):
     """Whether a variable is local to a routine depends on the program being compiled: one subroutine object is compiled first in a
     program where its read is legitimate (main stores the variable, so it is shared; or the variable lives in the frame) and then in
@@ -215,7 +245,40 @@ def shared_subroutine_probe(pt, acc, rng):
     from ..common import PT_ERRORS, reset_globals
     reset_globals()
     I = pt.Int
-    variant = rng.choice(["shared_with_main", "shared_with_main", "frame_then_scratch", "reject_accept_reject"])
+    variant = rng.choice(["shared_with_main", "shared_with_main", "frame_then_scratch", "reject_accept_reject", "after_router", "after_router"])
+    if variant == "after_router":
+        # a Router build rewinds the slot-id counter while the helper's declaration (and its slots) stays cached: variables created
+        # afterwards get ids that the helper's slots already carry - they are still different variables
+        @pt.Subroutine(pt.TealType.uint64)
+        def helper(x):
+            a, b, c2 = pt.ScratchVar(pt.TealType.uint64), pt.ScratchVar(pt.TealType.uint64), pt.ScratchVar(pt.TealType.uint64)
+            return pt.Seq(a.store(x), b.store(x + I(1)), c2.store(I(3)), a.load() + b.load() + c2.load())
+
+        def meth(x: pt.abi.Uint64, *, output: pt.abi.Uint64):
+            return output.set(helper(x.get()))
+        r = pt.Router("t", pt.BareCallActions(no_op=pt.OnCompleteAction.create_only(pt.Approve())), clear_state=pt.Approve())
+        r.add_method_handler(pt.ABIReturnSubroutine(meth))
+        try:
+            r.compile_program(version=rng.choice([6, 8]))
+        except PT_ERRORS:
+            return
+        fresh = [pt.ScratchVar(pt.TealType.uint64) for _ in range(48)]
+        for i, w in enumerate(fresh):
+            acc.evaluations += 1
+            try:
+                pt.compileTeal(pt.Seq(pt.Pop(helper(I(1))), w.load()), pt.Mode.Application, version=6, optimize=pt.OptimizeOptions(scratch_slots=False))
+            except PT_ERRORS as e:
+                cause = e.__cause__
+                if isinstance(cause, pt.TealCompileError) and "load occurs before store" in str(cause):
+                    acc.counters["shared_subroutine_rejected"] += 1
+                    continue
+                acc.violation("error_without_offending_load", {"probe": "shared_subroutine", "variant": variant, "k": i}, "rejected with %r, cause %r" % (str(e)[:120], cause))
+                return
+            acc.violation("unassigned_load_accepted", {"probe": "shared_subroutine", "variant": variant, "k": i, "slot_id": w.slot.id},
+                          "variable #%d created after a Router build (slot id %d) is read before any store next to a call of a helper the router had compiled, and the program compiled" % (i, w.slot.id))
+            return
+        acc.counters["after_router_sequences"] += 1
+        return
     guard = rng.random() < .5
     v = pt.ScratchVar(pt.TealType.uint64)
 
@@ -274,6 +337,12 @@ def run_shard(shard):
     acc = Acc()
     if "replay" in shard:
         c = shard["replay"]
+        if c.get("probe") == "many_paths":
+            import pyteal as pt
+            import random
+            for k in range(6):
+                many_paths_probe(pt, acc, random.Random(k))
+            return acc.result()
         if c.get("probe") == "shared_subroutine":
             import pyteal as pt
             import random
@@ -328,6 +397,8 @@ def run_shard(shard):
     import pyteal as pt
     for _ in range(12):
         shared_subroutine_probe(pt, acc, rng)
+    for _ in range(2):
+        many_paths_probe(pt, acc, rng)
     # ---- nested loops with jumps
     fam = nested_loop_family()
     for j, (tag, body) in enumerate(fam):
